@@ -11,7 +11,10 @@ for d in seeded/C*-m*; do
   res=""
   for c in $prop $extra; do
     out=$(timeout 900 ./check $c 2>&1)
-    if echo "$out" | grep -q "^VIOLATION"; then res="$res $c:DETECTED"; else res="$res $c:missed"; fi
+    if echo "$out" | grep -q "^VIOLATION"; then
+      rules=$(echo "$out" | grep "^  rule=" | sed 's/^  rule=//' | sort | uniq -c | sort -rn | head -3 | awk '{printf "%s(x%s) ", $2, $1}')
+      res="$res $c:DETECTED[$rules]"
+    else res="$res $c:missed"; fi
   done
   git -C /repo checkout -- .
   echo -e "$id\t$res" >> seeded/RESULTS.tsv.new
